@@ -806,22 +806,40 @@ func (env *LEnv) TaggedValue(typ *LVal, val *LVal) *LVal {
 // not a substitute for it: it panics on an environment InitializeUserEnv has
 // not already established.  See its doc comment, and issue #433.
 func (env *LEnv) New(typ *LVal, args *LVal) *LVal {
-	if typ.Type != LTaggedVal {
-		return env.Errorf("first argument is not a typedef: %v", GetType(typ))
-	}
-	if typ.Str != env.Runtime.Registry.Lang+":typedef" {
+	tname, ctor, ok := env.typedefParts(typ)
+	if !ok {
 		return env.Errorf("first argument is not a typedef: %v", GetType(typ))
 	}
 	if args.Type != LSExpr {
 		return env.Errorf("second argument is not a list: %v", GetType(args))
 	}
-	tname := typ.Cells[0].Cells[0]
-	ctor := typ.Cells[0].Cells[1]
 	v := env.FunCall(ctor, args)
 	if v.Type == LError {
 		return v
 	}
 	return env.TaggedValue(tname, v)
+}
+
+// typedefParts returns the name and the constructor of the typedef typ.  A
+// typedef is recognized by its tag AND by its shape: the tag alone is only a
+// name, and a program can obtain a value tagged <lang>:typedef whose user data
+// is anything at all -- (new typedef 'lisp:typedef (lambda (x) x)) is a type
+// NAMED lisp:typedef, and every value made with it carries that tag.  Code
+// that went on to read the name and the constructor out of such a value
+// indexed past the end of a list that was never there, and the program got an
+// internal-panic instead of "not a typedef".
+func (env *LEnv) typedefParts(typ *LVal) (name, ctor *LVal, ok bool) {
+	if typ.Type != LTaggedVal || typ.Str != env.Runtime.Registry.Lang+":typedef" || len(typ.Cells) != 1 {
+		return nil, nil, false
+	}
+	def := typ.Cells[0]
+	if def.Type != LSExpr || len(def.Cells) != 2 {
+		return nil, nil, false
+	}
+	if def.Cells[0].Type != LSymbol || def.Cells[1].Type != LFun {
+		return nil, nil, false
+	}
+	return def.Cells[0], def.Cells[1], true
 }
 
 // Lambda returns a new Lambda with fun.Env and fun.Package set automatically.
